@@ -348,3 +348,10 @@ for short, e, parts in (('mcond', 'm', ('init', 'iter', 'exit')), ('ract', 'a', 
            outline={'MATCH_CONDITIONS': 'mcond', 'RUN_ACTIONS': 'ract'}, enforce='%s__%s' % (short, part), min_reach=1, allow_nobody=['f__ZN11trompeloeil8get_lock', 'vpx_', 'vs_', 'f__ZN11trompeloeil21report_forbidden', 'f__ZN11trompeloeil13params_string'],
            bound='none: any number of WITH clauses / side effects (inductive invariant over the outlined loop of the real function)')
 LEVELS['C08'] = 'proof'
+
+UNITS['retire_is'] = {
+    'opaque': [], 'dyn_types': [], 'ghost_fields': {r'^sequence_matcher$': ['unsigned long g_pos']},
+    'roots': {'RETIRE_UNTIL': '13sequence_type12retire_untilE', 'SM': 'rec:^sequence_matcher$', 'ST': 'rec:^sequence_type$', 'LE': r'rec:^list_elem<sequence_matcher>$'},
+}
+ob(name='retire_is.retire_until.iter', kind='IS', props=['C05'], unit='retire_is', harness='h_retire_is.c', entry='r_iter', outline={'RETIRE_UNTIL': 'runtil'}, enforce='runtil__iter', min_reach=5,
+   bound='none: sequences of any length (inductive step over the outlined loop of the real retire_until; init and exit parts are empty)')
